@@ -35,7 +35,10 @@ type c04Interp struct {
 	caseName string
 	caseOps  []string
 	hungKey  bool
+	held     []c04Held
 }
+
+type c04Held struct{ key, slice, was []byte }
 
 func (in *c04Interp) reset() {
 	if in.b != nil {
@@ -49,6 +52,7 @@ func (in *c04Interp) reset() {
 	in.file = nil
 	in.db = nil
 	in.hungKey = false
+	in.held = nil
 }
 
 // withTimeout runs f; "hang" only if it does not return within the budget three times in a row.
@@ -208,6 +212,7 @@ func (in *c04Interp) exec(line string) string {
 			return "nofile"
 		}
 		k := zz.Unhex(w[1])
+		var got []byte
 		r := withTimeout(2*time.Second, func() string {
 			v, err := in.db.Lookup(k)
 			if err != nil {
@@ -216,8 +221,26 @@ func (in *c04Interp) exec(line string) string {
 				}
 				return "err"
 			}
+			got = v
 			return "found " + zz.Hex(v)
 		})
+		// a value handed to the caller stays the caller's: the results of earlier lookups must still read what they read
+		// when they were returned (a reader that returns a slice of a reused buffer corrupts them)
+		for _, h := range in.held {
+			if !bytes.Equal(h.slice, h.was) {
+				in.s.Violation(fmt.Sprintf("the value returned by an earlier Lookup(%s) changed from %x to %x after a later lookup", zz.Hex(h.key), h.was, h.slice),
+					"C04:lookup-result-overwritten", in.replayOf("lookup "+w[1]))
+				in.held = nil
+				break
+			}
+		}
+		if got != nil {
+			if len(in.held) >= 8 {
+				in.held = in.held[1:]
+			}
+			in.held = append(in.held, c04Held{key: append([]byte{}, k...), slice: got, was: append([]byte{}, got...)})
+			in.s.Count("lookup-result-held")
+		}
 		// oracle: every inserted key is found with exactly its value
 		if want, ok := in.inserted[string(k)]; ok {
 			if r != "found "+zz.Hex(want) {
